@@ -592,7 +592,9 @@ def loader_kwargs(style):
 # --------------------------------------------------------------------------------------
 # storage faults on text (offsets are character offsets: never splits a UTF-8 sequence)
 # --------------------------------------------------------------------------------------
-FAULT_KINDS = ["torn", "lost_line", "dup_line", "swap_lines", "flip", "del_char", "ins_char", "zero_tail", "empty"]
+FAULT_KINDS = ["torn", "lost_line", "dup_line", "swap_lines", "flip", "del_char", "ins_char", "zero_tail", "empty",
+               "neg_number", "zero_number", "swap_fields"]
+_NUMTOK = None
 
 
 def _split_keep(text):
@@ -670,6 +672,33 @@ def apply_fault(rng, text, kind):
             return text[:off] + text[off + 1:], {"kind": kind, "at": off, "old": c}
         new = rng.choice(flip_alphabet(c) if c not in "\r\n" else ["0", " ", "x"])
         return text[:off] + new + text[off:], {"kind": kind, "at": off, "new": new}
+    if kind in ("neg_number", "zero_number", "swap_fields"):
+        # field-level corruptions (a sign lost/gained, a value zeroed, two neighbouring fields exchanged):
+        # the kind of single fault that pushes well-formed content outside a task's conventions
+        import re
+
+        toks = [m for m in re.finditer(r"[^\s,;]+", text)]
+        nums = [m for m in toks if classify_number(m.group(0))[0] == "num"]
+        if not nums:
+            return None
+        if kind == "neg_number":
+            m = rng.choice(nums)
+            t = m.group(0)
+            new = t[1:] if t[0] == "-" else ("-" + t.lstrip("+"))
+            return text[:m.start()] + new + text[m.end():], {"kind": kind, "at": m.start(), "old": t, "new": new}
+        if kind == "zero_number":
+            m = rng.choice(nums)
+            if m.group(0) in ("0", "0.0"):
+                return None
+            new = rng.choice(["0", "0.0"])
+            return text[:m.start()] + new + text[m.end():], {"kind": kind, "at": m.start(), "old": m.group(0), "new": new}
+        pairs = [(a, b) for a, b in zip(toks, toks[1:]) if "\n" not in text[a.end():b.start()] and "\r" not in text[a.end():b.start()]
+                 and classify_number(a.group(0))[0] == "num" and classify_number(b.group(0))[0] == "num" and a.group(0) != b.group(0)]
+        if not pairs:
+            return None
+        a, b = rng.choice(pairs)
+        return (text[:a.start()] + b.group(0) + text[a.end():b.start()] + a.group(0) + text[b.end():],
+                {"kind": kind, "at": a.start(), "old": a.group(0), "new": b.group(0)})
     parts = _split_keep(text)
     if kind == "lost_line":
         i = rng.randrange(len(parts))
